@@ -101,7 +101,8 @@ def run(tier, rep):
     q = tier == "quick"
     lq = gen.docs("LQ", tier, rep)
     l2 = gen.docs("L2", tier, rep)
-    docs = gen.sample(lq, 26000 if q else 400000, C.SEED, keep_short=2000) + gen.sample(l2, 8000 if q else 100000, C.SEED + 1)
+    docs = gen.sample(lq, 26000 if q else 400000, C.SEED, keep_short=2000) + gen.sample(l2, 8000 if q else 100000, C.SEED + 1) \
+        + gen.twins(gen.sample(lq, 3000 if q else 40000, C.SEED + 2), C.SEED, per_doc=1)
     combos = [(p, m, qq) for p in ("commonmark", "js-default") for m in MODES for qq in QUOTES]
     jobs = [combos[(k * 5 + 1) % len(combos)] + (d + ("\n" if k % 2 else ""),) for k, d in enumerate(docs)]
     res = C.pmap(record, jobs, chunk=300)
